@@ -136,6 +136,7 @@ type end struct {
 	setUserReadDL func(time.Time)
 	injectErr func()
 	closeStub func()
+	closeWrap func() error // Close of the wrapper itself
 }
 
 type opResult struct {
@@ -169,10 +170,10 @@ func run(env *simrt.Env, sci interface{}) {
 			p := p
 			if sc.Flavor == "connctx-msg" {
 				w := connctx.New(p)
-				ends[i] = end{read: w.ReadContext, write: w.WriteContext}
+				ends[i] = end{read: w.ReadContext, write: w.WriteContext, closeWrap: w.Close}
 			} else {
 				w := netctx.NewConn(p)
-				ends[i] = end{read: w.ReadContext, write: w.WriteContext}
+				ends[i] = end{read: w.ReadContext, write: w.WriteContext, closeWrap: w.Close}
 			}
 			ends[i].deadlines = p.Deadlines
 			ends[i].setUserReadDL = func(t time.Time) { _ = p.SetReadDeadline(t) }
@@ -198,10 +199,10 @@ func run(env *simrt.Env, sci interface{}) {
 			s := s
 			if sc.Flavor == "connctx-stream" {
 				w := connctx.New(s)
-				ends[i] = end{read: w.ReadContext, write: w.WriteContext}
+				ends[i] = end{read: w.ReadContext, write: w.WriteContext, closeWrap: w.Close}
 			} else {
 				w := netctx.NewConn(s)
-				ends[i] = end{read: w.ReadContext, write: w.WriteContext}
+				ends[i] = end{read: w.ReadContext, write: w.WriteContext, closeWrap: w.Close}
 			}
 			ends[i].deadlines = s.Deadlines
 			ends[i].setUserReadDL = func(t time.Time) { _ = s.SetReadDeadline(t) }
@@ -609,6 +610,31 @@ func run(env *simrt.Env, sci interface{}) {
 				}
 			}
 		}
+	}
+	// the wrappers themselves are closed: every later operation returns (with whatever error), the
+	// second and third just like the first
+	for e := 0; e < 2; e++ {
+		if ends[e].closeWrap == nil {
+			continue
+		}
+		e := e
+		_ = ends[e].closeWrap()
+		done := 0
+		h := env.Go(fmt.Sprintf("after-close%d", e), func() {
+			for k := 0; k < 3; k++ {
+				ctx, cancel := context.WithTimeout(context.Background(), time.Second)
+				_, _ = ends[e].read(ctx, make([]byte, 8))
+				_, _ = ends[e].write(ctx, []byte{1, 2, 3})
+				cancel()
+				done++
+			}
+		})
+		env.QuiesceWithin(time.Minute)
+		if !h.Finished() {
+			env.Fail("C17/operation-stuck-after-close", "end %d: after the wrapper's Close, round %d of read+write did not return within a simulated minute although its context expired after a second", e, done+1)
+			return
+		}
+		env.Probe("operations-after-wrapper-close")
 	}
 }
 
